@@ -108,6 +108,9 @@ SIG_INI_AS_TOML = "pydoctor.ini-read-as-toml:quoted-value-differs"
 SIG_TOML_LIB = "toml-quoted-value:leading-escaped-quote"
 SIG_ABBREV = "cli-abbreviation:file-not-overridden"
 SIG_CRASH = "config-file:uncaught-exception"
+SIG_MAXAGE = "intersphinx-cache-max-age:not-checked-at-parse-time"
+MAXAGE_GOOD = ["1d", "3h", "0s", "59m", "2w", "1w"]
+MAXAGE_BAD = ["1x", "x", "d", "1", "1.5d", "-1d", "1 d", "1dd", "99999999999999999999w", "é"]
 SIG_CONF_AS_TOML = "config-file-other-extension-read-as-toml:quoted-value-differs"
 
 
@@ -824,6 +827,8 @@ def values_for(o: Dict[str, Any], ctx: Ctx) -> List[str]:
         vals = INTS
     elif long in CLASSES:
         vals = CLASSES[long]
+    elif long == "--intersphinx-cache-max-age":      # converter `_max_age` (commit 41f9bad): checked when the options are parsed
+        vals = MAXAGE_GOOD[:3] + MAXAGE_BAD[:3] + MAXAGE_GOOD[3:] + MAXAGE_BAD[3:]
     elif long == "--privacy":
         vals = PRIV
     elif long in ("--project-base-dir", "--template-dir", "--add-package", "--html-output", "--intersphinx-cache-path"):
@@ -1646,6 +1651,31 @@ def stream_corpus(ctx: Ctx, sc: Scratch) -> None:
         elif status == "open":
             ctx.notes.append(f"open finding {sig}: its recorded input no longer fails")
     sc.clear()
+    # --intersphinx-cache-max-age (fixed by 41f9bad): an unparsable value is an option error (exit 2) when the options are
+    # parsed, from the command line and from every file alike; a parsable one passes through unchanged
+    from pydoctor.sphinx import parseMaxAge, InvalidMaxAge
+
+    def parsable(v: str) -> bool:      # the reference: what the cache set-up (sphinx.parseMaxAge) accepts
+        try:
+            parseMaxAge(v)
+            return True
+        except InvalidMaxAge:
+            return False
+    for v in MAXAGE_BAD + MAXAGE_GOOD:
+        good = parsable(v)
+        runs = [("command line", sc.run([f"--intersphinx-cache-max-age={v}"]))]
+        for fname, header, fmt in FILES:
+            sc.write(fname, f"{header}\nintersphinx-cache-max-age = {toml_basic(v) if fmt == 'toml' else py_quote('1d', v)}\n")
+            runs.append((fname, sc.run([])))
+            sc.clear()
+        ctx.case("corpus max-age " + enc(v), True, None)
+        ctx.count("corpus:max-age:" + ("parsable" if good else "unparsable"))
+        for how, r in runs:
+            ok = (r["kind"] == "exit" and r["code"] == 2) if not good else (r["kind"] == "ok" and r["options"].intersphinx_cache_max_age == v)
+            if not ok:
+                ctx.fail(SIG_MAXAGE, {"mode": "maxage", "value": v, "from": how},
+                         f"--intersphinx-cache-max-age {v!r} from {how}: {short(r)}" + (f", value {r['options'].intersphinx_cache_max_age!r}" if r["kind"] == "ok" else "")
+                         + (" (expected: option error, exit 2)" if not good else " (expected: accepted unchanged)"))
     # seeded shapes (seeded/C20*/meta.json "needs")
     shapes: List[Tuple[str, str, List[str], List[str], str]] = [
         # (file, text, args when the file is read, equivalent command line, signature when they differ)
